@@ -11,6 +11,8 @@ package proxy
 import (
 	"context"
 	"fmt"
+	templog "go.temporal.io/server/common/log"
+	"net/http/httptest"
 	"sort"
 	"strings"
 	"testing"
@@ -407,6 +409,13 @@ func TestVerifC15(t *testing.T) {
 					res.Violate("acl/cluster-connection-fails", transport+": "+err.Error(), map[string]any{"family": f.name, "transport": transport})
 					continue
 				}
+				// the operational endpoints of the process are in use while the policy is enforced: the debug page
+				// (/debug/connections) has been requested once before the calls are made - it may not change any verdict
+				if cl.CC != nil {
+					pr := &Proxy{clusterConnections: map[migrationId]*ClusterConnection{{"c15"}: cl.CC}}
+					rec := httptest.NewRecorder()
+					HandleDebugInfo(rec, httptest.NewRequest("GET", "/debug/connections", nil), pr, templog.NewNoopLogger())
+				}
 				allowed := map[string]bool{}
 				for _, m := range f.list {
 					allowed[m] = true
@@ -491,7 +500,7 @@ func TestVerifC15(t *testing.T) {
 	res.Set("evaluations", evals)
 	res.Set("distinct_nontrivial", nontrivial)
 	res.Set("allow_list_families", int64(len(fams)))
-	res.Set("rule", "real ClusterConnection (remote side on TCP, mux-server and mux-client transports over loopback; for the mux transports the harness owns the peer end of the yamux session) with an ACL policy: allow-list families {empty, full, non-existent names only, singleton and complement-of-singleton for the selected admin methods (all of them in thorough)} x every method of AdminService and WorkflowService (streaming method opened as a stream) x {no header, s2s-request-translation=false, x-s2s-intra-proxy=1, both} x {policy without / with an allowedNamespaces list (requests then name the allowed namespace where they have the field), connection with a namespace translation configured; quick: TCP only}; plus every unary admin method through the outbound server; non-trivial = cases that must be refused")
+	res.Set("rule", "real ClusterConnection (remote side on TCP, mux-server and mux-client transports over loopback; for the mux transports the harness owns the peer end of the yamux session) with an ACL policy: allow-list families {empty, full, non-existent names only, singleton and complement-of-singleton for the selected admin methods (all of them in thorough)} x every method of AdminService and WorkflowService (streaming method opened as a stream) x {no header, s2s-request-translation=false, x-s2s-intra-proxy=1, both} x {policy without / with an allowedNamespaces list (requests then name the allowed namespace where they have the field), connection with a namespace translation configured; quick: TCP only}; plus every unary admin method through the outbound server; the debug page has been rendered once before the calls of every configuration; non-trivial = cases that must be refused")
 	res.Set("exhaustive", true)
 	res.Set("transports", "tcp, mux-server, mux-client (quick: the mux transports get the base families and the singleton/complement lists of DescribeCluster and StreamWorkflowReplicationMessages; thorough: every family on every transport)")
 	res.Sample(map[string]any{"family": fams[len(fams)-1].name, "method": "/temporal.server.api.adminservice.v1.AdminService/DescribeCluster"})
